@@ -3,7 +3,10 @@
 (* Acceptor for C19 sessions: [id, items, p1 (probe values in the session  *)
 (* that made the definitions), st2 (loading the snapshot in a fresh        *)
 (* process), p2 (probe values there), same (the second snapshot is the     *)
-(* first, the time stamp line aside)].  Records which probes differ.       *)
+(* first, the time stamp line aside), lf (per distinct text of the pretty-  *)
+(* printed load forms of the session's objects: margins, st and probe      *)
+(* values p after evaluating them in a fresh process)].                    *)
+(* Records which probes differ.                                            *)
 (***************************************************************************)
 EXTENDS World
 Trace == ndJsonDeserialize("traces.ndjson")
@@ -11,11 +14,16 @@ VARIABLES l, bad
 Judge(t) == LET d == {t.items[k] : k \in 1..Len(t.items)}
                 wrong1 == {k \in 1..Len(Probes) : t.p1[k] # Expected(d, Probes[k])}
                 wrong2 == {k \in 1..Len(Probes) : t.p2[k] # t.p1[k]}
-            IN [first |-> wrong1, reload |-> IF t.st2 = "ok" THEN wrong2 ELSE {}, loads |-> t.st2 = "ok", same |-> t.same]
+                \* the objects rebuilt from their pretty-printed load forms (one entry per distinct text): every form evaluates
+                \* and every probe answers as in the defining session
+                lfbad == {j \in 1..Len(t.lf) : t.lf[j].st # "ok" \/ \E k \in 1..Len(Probes) : t.lf[j].p[k] # t.p1[k]}
+            IN [first |-> wrong1, reload |-> IF t.st2 = "ok" THEN wrong2 ELSE {}, loads |-> t.st2 = "ok", same |-> t.same,
+                lf |-> {[margins |-> t.lf[j].margins, st |-> t.lf[j].st,
+                         probes |-> {Probes[k] : k \in {k \in 1..Len(Probes) : t.lf[j].p[k] # t.p1[k]}}] : j \in lfbad}]
 InitT == l = 1 /\ bad = <<>> /\ defined = {} /\ hist = <<>>
 NextT == /\ l <= Len(Trace) /\ l' = l + 1 /\ UNCHANGED <<defined, hist>>
          /\ LET t == Trace[l]  j == Judge(t) IN
-            bad' = IF j.first = {} /\ j.reload = {} /\ j.loads /\ j.same THEN bad
-                   ELSE Append(bad, [id |-> t.id, first |-> {Probes[k] : k \in j.first}, reload |-> {Probes[k] : k \in j.reload}, loads |-> j.loads, same |-> j.same])
+            bad' = IF j.first = {} /\ j.reload = {} /\ j.loads /\ j.same /\ j.lf = {} THEN bad
+                   ELSE Append(bad, [id |-> t.id, first |-> {Probes[k] : k \in j.first}, reload |-> {Probes[k] : k \in j.reload}, loads |-> j.loads, same |-> j.same, lf |-> j.lf])
 DoneT == (l = Len(Trace) + 1) => PrintT("RESULT" \o ToJson([bad |-> bad, checked |-> Len(Trace)]))
 =============================================================================
